@@ -134,6 +134,34 @@ theorem CountLe.ite {Q : Ev → Bool} {c : Prop} [Decidable c] {a b : M α} {n :
     (ha : CountLe Q n a) (hb : CountLe Q n b) : CountLe Q n (if c then a else b) := by
   split <;> assumption
 
+/-- emits nothing at all -/
+abbrev Silent (m : M α) : Prop := Emits (fun _ => false) m
+
+theorem Silent.evs {m : M α} (h : Silent m) (w : World) : (m w).evs = [] := by
+  have := h w
+  cases hm : (m w).evs with
+  | nil => rfl
+  | cons e es => rw [hm] at this; simp at this
+
+theorem tryCatchIf_evs_silent {m : M α} {p : Exc → Bool} {h : Exc → M α} (hh : ∀ e, Silent (h e)) (w : World) :
+    (tryCatchIf m p h w).evs = (m w).evs := by
+  unfold M.tryCatchIf
+  split
+  · rename_i e e1 w1 heq
+    split
+    · simp [(hh e).evs w1, heq]
+    · simp [heq]
+  · rfl
+
+theorem bind_evs_silent {m : M α} {f : α → M β} (hf : ∀ a, Silent (f a)) (w : World) :
+    ((m >>= f) w).evs = (m w).evs := by
+  rw [bind_apply]
+  split
+  · rename_i a e1 w1 heq
+    simp [(hf a).evs w1, heq]
+  · rename_i e e1 w1 heq
+    simp [heq]
+
 end M
 
 namespace Dongle
@@ -145,6 +173,11 @@ theorem exchange_emits {P : Ev → Bool} (apdu : Bytes) (h : P (.apdu apdu) = tr
 
 theorem sendCommand_emits {P : Ev → Bool} (cmd : UInt8) (data : Bytes) (h : P (.apdu (CLA :: cmd :: data)) = true) :
     M.Emits P (sendCommand cmd data) := exchange_emits _ h
+
+theorem sendCommand_evs (cmd : UInt8) (data : Bytes) (w : World) :
+    (sendCommand cmd data w).evs = [.apdu (CLA :: cmd :: data)] := by
+  unfold sendCommand exchange
+  split <;> rfl
 
 theorem idx_emits {P : Ev → Bool} (b : Bytes) (i : Nat) : M.Emits P (idx b i) := by
   unfold idx
